@@ -171,6 +171,34 @@ class LibMixin:
                 st.mem[key] = z3.Store(m, F, spare)
             st.ghost["alloc"] = st.ghost.get("alloc", z3.BitVecVal(0, 64)) + z3.If(inplace, idx(0), newcap * idx(self.elem_size(v.elem)))
             return SliceV(z3.If(inplace, v.rid, F), v.off, v.ln, z3.If(inplace, v.cap, newcap), v.elem)
+        if callee.startswith("strings.(*Builder)."):
+            m = callee.rsplit(".", 1)[1]
+            self.models_used.add("strings.Builder.%s (contents not modelled; Grow(n) requests n bytes and panics on n < 0)" % m)
+            vals = []
+            for a in args:
+                try:
+                    vals.append(self.ev(a, st))
+                except Unsupported:
+                    vals.append(None)
+            if m == "Grow":
+                n = vals[0]
+                self.oblige(st, "safety", "grow-nonneg@%s" % self.site(e), n >= 0, e.get("ln"), "strings.Builder.Grow: negative count panics")
+                self.alloc_obligation(st, e, n)
+                return TupleV([])
+            t = self.T(e) if "t" in e else None
+            if t is None or (t.under().k == "tuple" and not t.under().d.get("elems")):
+                return TupleV([])
+            if t.under().k == "tuple":
+                out = []
+                for el in t.under().d.get("elems"):
+                    et = self.prog.types[el["t"]]
+                    v = self.fresh_value(et, "sb")
+                    self.type_facts(st, v, et, param=False)
+                    out.append(v)
+                return TupleV(out)
+            v = self.fresh_value(t, "sb")
+            self.type_facts(st, v, t, param=False)
+            return v
         if callee == "sync.(*Once).Do":
             self.models_used.add("sync.Once.Do (runs f iff the once has not fired, then marks it fired; at-most-once is trusted)")
             fun = e["Fun"]
@@ -247,7 +275,17 @@ class LibMixin:
             self.alloc_sites.append((e, res.ln, t.elem(), st.pc))
             self.count_alloc(st, res.ln, t.elem())
             return res
-        if callee in ("strings.ToUpper", "strings.ToLower", "strings.TrimSpace", "fmt.Sprintf", "fmt.Sprint", "strconv.Quote", "strconv.Itoa"):
+        if callee in ("strings.ToUpper", "strings.ToLower", "strings.TrimSpace"):
+            self.models_used.add(callee + " (a string that is a deterministic function of the argument; contents not modelled)")
+            sv = self.ev(args[0], st)
+            key = callee.replace("strings.", "")
+            fr_ = z3.Function("lib_%s_rid" % key, RS, IS, IS, RS)(sv.rid, sv.off, sv.ln)
+            fo_ = z3.Function("lib_%s_off" % key, RS, IS, IS, IS)(sv.rid, sv.off, sv.ln)
+            fl_ = z3.Function("lib_%s_len" % key, RS, IS, IS, IS)(sv.rid, sv.off, sv.ln)
+            self.facts.append(z3.And(fo_ >= 0, fo_ <= idx(MAXLEN), fl_ >= 0, fl_ <= idx(MAXLEN), z3.ULT(fr_, rid(FRESH_BASE)),
+                                     z3.Implies(fr_ == rid(0), fl_ == 0)))
+            return SliceV(fr_, fo_, fl_, fl_, _byte_type(self.prog), isstr=True)
+        if callee in ("fmt.Sprintf", "fmt.Sprint", "strconv.Quote", "strconv.Itoa"):
             self.models_used.add(callee + " (some string; contents not modelled)")
             for a in args:
                 try:
